@@ -42,9 +42,154 @@ def corpus(tier, seed):
     return out
 
 
+def enc(t):
+    return t.replace(" ", "_")
+
+
+def rule_rich(tier, seed, have):
+    """extra (limit, program) pairs on which the real run_prover APPLIES rules: tree leaves (whole
+    4x2 / 2x4 / 3x3 trees at small limits) and seeded random normal-form programs are run once and
+    those with rulapp > 0 are kept (generator-side filter only: what is kept is then judged like
+    every other case)."""
+    rng = random.Random(seed * 104729 + 23)
+    cand = []
+    specs = ["4 2 1 25", "2 4 1 25", "4 2 0 12", "2 4 0 12", "3 3 1 6"]
+    outs = core.run_harness([f"treelist {a}" for a in specs])
+    for o in outs:
+        if o in ("PANIC", "BAD-OP", "limit:overflow"):
+            continue
+        leaves = [p for p in o.split(";") if p]
+        rng.shuffle(leaves)
+        cand += [(rng.choice([300, 1000, 3000]), p) for p in leaves[:60000 if tier == "thorough" else 4000]]
+    for _ in range(20000 if tier == "thorough" else 2000):
+        s, c = rng.choice([(5, 2), (3, 3), (2, 5), (6, 2), (3, 4), (4, 3)])
+        cand.append((rng.choice([300, 1000, 3000]), core.rand_prog(rng, s, c, p_undef=rng.choice([0.0, 0.1]), normal=True)))
+    outs = core.run_harness([f"runprover {lim} | {p}" for lim, p in cand])
+    keep = []
+    seen = set(have)
+    cap = 6000 if tier == "thorough" else 1200
+    for c, o in zip(cand, outs):
+        if o in ("PANIC", "limit:overflow", "BAD-OP") or c in seen:
+            continue
+        if parse_kv(o).get("rulapp", "0") != "0":
+            keep.append(c)
+            seen.add(c)
+            if len(keep) >= cap:
+                break
+    return keep, len(cand)
+
+
+def replay_pass(rep, tier, cases):
+    """whole-run validation by the Lean-verified `replay` (BB/Model/ValidateTrace.lean): the real
+    run's reported rule applications are re-validated one by one and the run is re-played with the
+    plain simulator in between; whatever the replay ends in is TRUE of the L0 machine
+    (BB/Props/C02.lean), with the true step count - no step budget, only a per-application one."""
+    budget = 1_000_000 if tier == "thorough" else 50_000
+    napps = 400 if tier == "thorough" else 150
+    sel = cases
+    lines = [f"ptrace {lim} {napps} | {p}" for lim, p in sel]
+    impl = core.run_harness(lines)
+    r_lines, r_meta = [], []
+    truncated = 0
+    for (lim, prog), out in zip(sel, impl):
+        parts = out.split(" # ")
+        if parts[0] in ("PANIC", "limit:overflow", "BAD-OP"):
+            continue
+        r = parse_kv(parts[0])
+        apps = parts[1:]
+        if len(apps) >= napps:
+            truncated += 1
+            continue
+        kind = r["result"]
+        blankrec = kind == "infrul" and r["cycles"] == "0"
+        rl = lim if (kind == "xlimit" or blankrec) else int(r["cycles"]) + (1 if kind in ("undfnd", "spnout") else 0)
+        if rl > 20000:
+            truncated += 1
+            continue
+        enc_apps = "#".join(";".join(enc(x) for x in a.split(";")[:4]) for a in apps) or "-"
+        r_lines.append(f"replay {budget} {rl} {enc_apps} | {prog}")
+        r_meta.append((lim, prog, r, blankrec, len(apps)))
+    outs = core.run_driver(r_lines)
+    agree = over = 0
+    with_apps = 0
+    ends = {}
+    for (lim, prog, r, blankrec, na), line, o in zip(r_meta, r_lines, outs):
+        f = parse_kv(o)
+        k = f["result"]
+        ends[k] = ends.get(k, 0) + 1
+        kind = r["result"]
+        norule = r["rulapp"] == "0"
+        bad = []
+        if k == "badapp" and f.get("why") == "overBudget":
+            over += 1
+            continue
+        if k in ("badapp", "appmismatch", "BAD-TAPE"):
+            bad.append(f"the replay refuses a reported rule application: {o}")
+        elif kind == "undfnd":
+            if k != "undfnd":
+                bad.append(f"reported a halt, the real machine does: {o[:120]}")
+            else:
+                if f["slot"] != r["last"]:
+                    bad.append("halting slot")
+                if f["marks"] != r["marks"]:
+                    bad.append("marks at the halt")
+                if f["cycle"] != r["cycles"]:
+                    bad.append("cycle count")
+                if norule and f["steps"] != r["steps"]:
+                    bad.append("steps (no rule applied)")
+        elif kind == "spnout":
+            if k != "spnout":
+                bad.append(f"reported a spin-out, the real machine does: {o[:120]}")
+            else:
+                if f["marks"] != r["marks"]:
+                    bad.append("marks at the spin-out")
+                if f["cycle"] != r["cycles"]:
+                    bad.append("cycle count")
+                if norule and f["steps"] != r["steps"]:
+                    bad.append("steps (no rule applied)")
+        elif blankrec:
+            if k != "blankrec":
+                bad.append(f"reported a repeated blank tape, the real machine does: {o[:120]}")
+        else:
+            # xlimit / cfglim / mulrul / infrul by rule: the configuration it was given in is reached
+            if k != "limit":
+                bad.append(f"the run is reported to continue, the real machine does: {o[:120]}")
+            else:
+                if f["marks"] != r["marks"]:
+                    bad.append("marks")
+                if norule and f["steps"] != r["steps"]:
+                    bad.append("steps (no rule applied)")
+        if not bad and k in ("undfnd", "spnout", "blankrec", "limit"):
+            rb = sorted(x for x in r["blanks"].split(",") if x)
+            fb = sorted(x for x in f["blanks"].split(",") if x)
+            if norule:
+                if rb != fb:
+                    bad.append("blank-tape steps (no rule applied)")
+            elif [x.split(":")[0] for x in rb] != [x.split(":")[0] for x in fb]:
+                bad.append("states of the blank-tape record")
+        if bad:
+            rep.violation("replay", {"case": f"runprover {lim} | {prog}", "impl": " ".join(f"{a}={b}" for a, b in r.items()),
+                                     "replay": o[:300], "fields": bad, "replay_line": line[:1500]})
+        else:
+            agree += 1
+            if na:
+                with_apps += 1
+    rep.cov["replay_runs"] = len(r_lines)
+    rep.cov["replay_agree"] = agree
+    rep.cov["replay_agree_runs_with_applications"] = with_apps
+    rep.cov["replay_beyond_application_budget"] = over
+    rep.cov["replay_skipped_too_many_applications_or_cycles"] = truncated
+    rep.cov["replay_ends"] = ends
+    rep.assumptions.append(f"replay: per-application validation budget {budget} plain cycles; runs with >= {napps} applications or > 20000 cycles are not replayed (counted)")
+
+
 def check(rep, tier, seed, replay):
     budget = 20_000_000 if tier == "thorough" else 1_000_000
     cases = corpus(tier, seed)
+    rich, ncand = rule_rich(tier, seed, cases)
+    cases = cases + rich
+    rep.cov["rule_applying_programs_added"] = len(rich)
+    rep.cov["candidates_screened_for_rule_applications"] = ncand
     lines = core.corpus_lines("C02") + [f"runprover {lim} | {p}" for lim, p in cases]
     impl = core.run_harness(lines)
     model = core.run_driver(lines)
@@ -117,6 +262,7 @@ def check(rep, tier, seed, replay):
         else:
             judged += 1
             distinct.add(line.split(" | ", 1)[1] + "|" + res)
+    replay_pass(rep, tier, cases)
     # known finding F9 is about the release build of the Python extension, not reachable here
     for m in mism[:100]:
         rep.violation("correspondence", m, found_input=False)
